@@ -285,10 +285,15 @@ def replay_generic(payload, in_specs, impl, ref):
     return dict(reproduced=gs != es, detail=dict(got=gs, expected=es))
 
 
-def check_same(res, cfg, facts, in_specs, impl_a, impl_b, tau_rel=1e-9, what='outputs', max_sat=2, seed=2, timeout_ms=10000,
-               allow_both_raise=True, scale=None):
+def check_same(res, cfg, facts, in_specs, impl_a, impl_b, **kw):
     """Two entry points run symbolically on the SAME input atoms must give the same outputs (same structure, shapes, values) for
-    every input.  impl_x(pw, tensors) -> [(name, tensor-or-None-or-marker)]; non-tensor items are compared with ==."""
+    every input.  impl_x(pw, tensors) -> [(name, tensor-or-None-or-marker)]; non-tensor items are compared with ==.
+    Every feasible data-dependent path is explored."""
+    return core.run_paths(res, lambda: _check_same_path(res, cfg, facts, in_specs, impl_a, impl_b, **kw))
+
+
+def _check_same_path(res, cfg, facts, in_specs, impl_a, impl_b, tau_rel=1e-9, what='outputs', max_sat=2, seed=2, timeout_ms=10000,
+                     allow_both_raise=True, scale=None, on_path=None):
     rt = symtorch.real_torch()
     rng = np.random.default_rng(seed)
     t0 = time.time()
@@ -303,6 +308,21 @@ def check_same(res, cfg, facts, in_specs, impl_a, impl_b, tau_rel=1e-9, what='ou
     res.symexec_s += time.time() - t0
     res.funcs = sorted(set(res.funcs) | T.STATE.funcs_entered)
     xs = [rng.uniform(-1, 1, size=s) for _, s in in_specs]
+    pc = list(P.PATHS.taken)
+    if pc:
+        facts = dict(facts, path=[bool(d) for _, d in pc])
+        what = what + ' [data-dependent path %s]' % facts['path']
+        env0 = P.AtomEnv()
+        for i, x in zip(ids, xs):
+            for a, v in zip(i.reshape(-1), x.reshape(-1)):
+                env0[int(a)] = float(v)
+        if not core.path_env_ok(env0):
+            xs = _pc_point(ids, pc)
+            if xs is None:
+                res.notes.append('no dyadic point found on path %s; path skipped' % facts['path'])
+                if res.status == 'held':
+                    res.status = 'inconclusive'
+                return None
     ra = core.outcome(lambda: impl_a(symtorch.real(), [rt.tensor(x, dtype=rt.float64) for x in xs]))
     rb = core.outcome(lambda: impl_b(symtorch.real(), [rt.tensor(x, dtype=rt.float64) for x in xs]))
     for s_, r_ in ((sa, ra), (sb, rb)):
@@ -353,13 +373,20 @@ def check_same(res, cfg, facts, in_specs, impl_a, impl_b, tau_rel=1e-9, what='ou
             if sv.size:
                 dev = max(dev, float(np.abs(sv - rv).max())); gscale = max(gscale, float(np.abs(rv).max()))
         pairs.append((na, ta, tb, k))
-    res.validated = dev
+    res.validated = dev if res.validated is None else max(res.validated, dev)
     if dev > 1e-9 * gscale:
         res.status = 'error'; res.trace = 'symbolic values deviate from real torch by %g' % dev; return None
+    if on_path is not None:
+        on_path(pc, A, Bv, ids)
     sc = scale or 1.0
     tau = Fraction(tau_rel).limit_denominator(10 ** 15) * Fraction(sc)
     st = res.stats or smt.Stats()
     solver = smt.Solver(stats=st, timeout_ms=timeout_ms)
+    if pc:
+        for i in ids:
+            for a in i.reshape(-1):
+                solver.var(int(a))
+        solver.add_path(pc)
     sats = []
     first = None
     for na, ta, tb, k in pairs:
@@ -372,10 +399,12 @@ def check_same(res, cfg, facts, in_specs, impl_a, impl_b, tau_rel=1e-9, what='ou
             d = p - q
             if first is None and (p.t or q.t):
                 first = (d, p)
-            if not d.is_zero():
+            if p.t or q.t:
                 res.nontrivial = True
             v, model = solver.decide_amplified(d, tau, label='%s[%d]' % (na, e))
             if v == 'sat':
+                if pc:
+                    model = solver.nice_model(solver._last_query, [int(a) for i in ids for a in i.reshape(-1)]) or model
                 sats.append((na, k, e, model))
             elif v != 'unsat':
                 res.status = 'inconclusive'; res.notes.append('solver answered %s on %s[%d]' % (v, na, e))
@@ -399,7 +428,8 @@ def check_same(res, cfg, facts, in_specs, impl_a, impl_b, tau_rel=1e-9, what='ou
         r2 = impl_b(symtorch.real(), [rt.tensor(x, dtype=rt.float64) for x in xv])
         diff = abs(float(r1[k][1].reshape(-1)[e]) - float(r2[k][1].reshape(-1)[e]))
         res.violations.append(dict(what='%s: %s[%d] differs between the two forms by %.3g' % (what, na, e, diff), facts=facts,
-                                   replay=dict(kind='same', xs=[x.tolist() for x in xv], out=k, e=int(e), tau=float(tau)), reproduced=diff > float(tau) / 2))
+                                   replay=dict(kind='same', xs=[x.tolist() for x in xv], out=k, e=int(e), tau=float(tau)), reproduced=diff > float(tau) / 2,
+                                   path_dependent=bool(pc)))
     if res.violations:
         res.status = 'violation'
     return dict(A=A, B=Bv, ids=ids, tau=tau, solver=solver)
